@@ -27,6 +27,11 @@ R1 = {
         M("algo/KnuthD_MC.tla", "algo/KnuthD_vartime_W2L5Y4.cfg", tiers=T, workers=12),
         M("algo/KnuthD_MC.tla", "algo/KnuthD_limb_W4L3Y1.cfg", tiers=T),
     ],
+    "C19": [
+        M("algo/Rand.tla", "algo/Rand_W3N2.cfg", workers=8),
+        M("algo/Rand.tla", "algo/Rand_W2N3.cfg", workers=8),
+        M("algo/Rand.tla", "algo/Rand_W4N2.cfg", tiers=T, workers=14, timeout=3000),
+    ],
     "C08": [
         M("algo/Monty.tla", "algo/Monty_amm_W3N2.cfg"),
         M("algo/Monty.tla", "algo/Monty_reduce_W3N2.cfg"),
@@ -44,3 +49,5 @@ PROPS = {
 
 import gen_c08
 PROPS["C08"]["pre"] = gen_c08.pre
+PROPS["C11"]["custom"] = "check_c11"
+PROPS["C19"]["selftest_skip_ops"] = ["rmod"]   # a single modular draw is only range-constrained (any v < m is admissible)
